@@ -33,7 +33,12 @@ def run(rep, props, replay=None):
     xo = np.linspace(0, 1, 16)
     Xo = np.round((fd.smooth_curves(rng, 4, xo) + 0.2 * rng.normal(size=(4, 16))) * 256) / 256
     for order in range(1, 11):
-        base = float(fd.dense(xo, Xo).noise_variance(order=order))
+        try:
+            base = float(fd.dense(xo, Xo).noise_variance(order=order))
+        except Exception as e:  # noqa: BLE001
+            rep.violation(f"noise_variance(order={order}) raised {type(e).__name__}: {e} — orders 1..10 are legitimate"[:300],
+                          {"x": C.hexf(xo), "X": C.hexf(Xo), "order": order})
+            continue
         for shift in (100.0, -20.0, 3.5):
             moved = float(fd.dense(xo, Xo + shift).noise_variance(order=order))
             rep.case(("shift-all-orders", order, shift, Xo.tobytes()), kind="noise-variance/shift-invariance")
@@ -76,7 +81,13 @@ def run(rep, props, replay=None):
         monitors_cov(rep, rng, d, cov, x, X)
         monitors_history(rep, d, mu, cov, x, X, i)
         for order in (sorted({1, 2, int(rng.integers(3, 11)), min(m, 10), min(max(m - 1, 1), 10)}) if quick else range(1, 11)):
-            nv = d.noise_variance(order=order)
+            try:
+                nv = d.noise_variance(order=order)
+                _ = [_estimate_noise_variance(X[k], order) for k in range(n)]
+            except Exception as e:  # noqa: BLE001
+                rep.violation(f"noise_variance(order={order}) raised {type(e).__name__}: {e} — orders 1..10 are legitimate"[:300],
+                              {"x": C.hexf(x), "X": C.hexf(X), "order": order})
+                continue
             if not np.isfinite(nv):
                 rep.violation(f"noise_variance(order={order}) is not finite for curves with {m} points",
                               {"x": C.hexf(x), "X": C.hexf(X), "order": order})
@@ -119,8 +130,8 @@ def run(rep, props, replay=None):
             rep.case(("mean2d", X2.tobytes()), kind="mean/2-D")
             if mu2.shape != (m, 3) or np.max(np.abs(mu2 - X2.mean(axis=0))) > 1e-12 * sc:
                 rep.violation("mean of 2-D dense data is not the pointwise average", {"X2": C.hexf(X2)})
-    # the TRANSLATED source of _estimate_noise_variance (Gen/Helpers.v, regenerated on this run) executed in Q, per curve
-    rung = C.CoqRun("C09", IMPORTS.replace("Tie.C09.", "Gen.Helpers Tie.C09."), shard=1)
+    # the TRANSLATED source of _estimate_noise_variance (Gen/NoiseVar.v, regenerated on this run) executed in Q, per curve
+    rung = C.CoqRun("C09", IMPORTS.replace("Tie.C09.", "Gen.NoiseVar Tie.C09."), shard=1)
     gtodo = []
     for t, what, kind, X in todo:
         if what == "noise-variance" and len(gtodo) < 30:
@@ -142,7 +153,7 @@ def run(rep, props, replay=None):
     try:
         resg = rung.run()
     except RuntimeError as e:
-        rep.notes.append(("translated _estimate_noise_variance could not be evaluated (Gen/Helpers.v does not load): " + str(e))[:300])
+        rep.notes.append(("translated _estimate_noise_variance could not be evaluated (Gen/NoiseVar.v does not load): " + str(e))[:300])
         resg, gtodo = {}, []
     for gt, order, xc, v in gtodo:
         rep.case(("translated-noise", order, xc.tobytes()), nontrivial=len(xc) > order, kind="translated-noise-variance",
